@@ -72,7 +72,7 @@ fn observe_page(p: &PageRc) -> Value {
     let m = match guarded(|| p.media_box()) {
         // node i carries /MediaBox [3 7 100+i 200+i]: all four numbers must be those of one node
         Outcome::Done(Ok(r)) => if r.left == 3.0 && r.bottom == 7.0 && r.top == r.right + 100.0 { json!(r.right as i64 - 100) } else { json!({"box": format!("{:?}", r)}) },
-        Outcome::Done(Err(e)) => if err_kind(&e) == "Type" { json!(0) } else { err_json(&e) },
+        Outcome::Done(Err(_)) => json!(0),      // no such attribute anywhere up the tree: an error value (the variant is the library's business)
         Outcome::Panic(pi) => panic_json(&pi),
     };
     let c = match guarded(|| p.crop_box()) {
@@ -82,7 +82,7 @@ fn observe_page(p: &PageRc) -> Value {
             let whole = if x >= 100 { r.left == 3.0 && r.bottom == 7.0 && r.top == r.right + 100.0 } else { r.left == 1.0 && r.bottom == 2.0 && r.top == r.right + 10.0 };
             if !whole { json!({"box": format!("{:?}", r)}) } else if x >= 100 { json!(100 + (x - 100)) } else { json!(x - 50) }
         }
-        Outcome::Done(Err(e)) => if err_kind(&e) == "Type" { json!(0) } else { err_json(&e) },
+        Outcome::Done(Err(_)) => json!(0),      // no such attribute anywhere up the tree: an error value (the variant is the library's business)
         Outcome::Panic(pi) => panic_json(&pi),
     };
     let r = match guarded(|| p.resources().map(|r: &MaybeRef<Resources>| {
@@ -92,7 +92,7 @@ fn observe_page(p: &PageRc) -> Value {
         Outcome::Done(Ok(keys)) => {
             if keys.len() == 1 && keys[0].starts_with("GS") { json!(keys[0][2..].parse::<i64>().unwrap_or(-1)) } else { json!({"keys": keys}) }
         }
-        Outcome::Done(Err(e)) => if err_kind(&e) == "Type" { json!(0) } else { err_json(&e) },
+        Outcome::Done(Err(_)) => json!(0),      // no such attribute anywhere up the tree: an error value (the variant is the library's business)
         Outcome::Panic(pi) => panic_json(&pi),
     };
     json!({"leaf": marker(p), "m": m, "c": c, "r": r})
